@@ -80,9 +80,15 @@ class _Section:
                 ck.note(f"{self.label}: {r.min_instances - r.count} shape obligation(s) of this section were not "
                         "evaluated on this layout (the section ended at an anchor it could not read)")
                 r.count = r.min_instances
+        # only this section's own abstentions (nested sections of other rules keep theirs)
+        keep = []
         for rid, reason in ck.analysis_errors[self.e0:]:
-            ck.note(f"{rid}: {reason} (abstention of a shape rule; decided by the abstract run of {self.backed_by})")
-        del ck.analysis_errors[self.e0:]
+            if rid == self.label:
+                ck.note(f"{rid}: {reason} (abstention of a shape rule; decided by the abstract run of "
+                        f"{self.backed_by})")
+            else:
+                keep.append((rid, reason))
+        ck.analysis_errors[self.e0:] = keep
         return swallowed
 
     def __exit__(self, et, ev, tb):
